@@ -1,6 +1,6 @@
 (* C17 - Tracker events are a faithful, well-nested account of the build.  Property theorems only. *)
 From Coq Require Import List NArith ZArith Bool.
-From PieV Require Import Model.Dag Model.Build Model.Tracker Proofs.TrackerP Proofs.Trace Proofs.Local2 Proofs.InvE Proofs.ExecEnd.
+From PieV Require Import Model.Dag Model.Build Model.Tracker Proofs.TrackerP Proofs.Trace Proofs.Local2 Proofs.InvE Proofs.ExecEnd Proofs.RequireEnd.
 Import ListNotations.
 Open Scope N_scope.
 
@@ -119,6 +119,37 @@ Proof. exact session_bottom_up_XI. Qed.
 Check C17_exec_events_agree_bottom_up : forall RC OC P fuel w ch,
   XI w -> okO XI (session_bottom_up RC OC P fuel w ch).
 Print Assumptions C17_exec_events_agree_bottom_up.
+
+(* ---- "a require-end event carries the value returned to the caller", as a statement about the stream ---- *)
+(* every require that returns -- issued by a task top-down, or inside a bottom-up build, whatever make_task_consistent did --
+   leaves as NEWEST event its end event with the checker it passed, the stamp of the returned output and the returned output *)
+Theorem C17_require_end_is_newest_event_with_returned_value : forall OC mc w t c o w',
+  require_with OC mc w t c = Done o w' ->
+  exists rest, trace w' = ERequireEnd t c (oc_stamp (OC c) o) o :: rest.
+Proof. exact require_end_is_newest_event. Qed.
+Check C17_require_end_is_newest_event_with_returned_value : forall OC mc w t c o w',
+  require_with OC mc w t c = Done o w' ->
+  exists rest, trace w' = ERequireEnd t c (oc_stamp (OC c) o) o :: rest.
+Print Assumptions C17_require_end_is_newest_event_with_returned_value.
+
+Theorem C17_require_end_value_bottom_up : forall OC mc w t c o w',
+  require_bu_with OC mc w t c = Done o w' ->
+  exists rest, trace w' = ERequireEnd t c (oc_stamp (OC c) o) o :: rest.
+Proof. exact require_bu_end_value. Qed.
+Check C17_require_end_value_bottom_up : forall OC mc w t c o w',
+  require_bu_with OC mc w t c = Done o w' ->
+  exists rest, trace w' = ERequireEnd t c (oc_stamp (OC c) o) o :: rest.
+Print Assumptions C17_require_end_value_bottom_up.
+
+(* Session::require: the stream ends with RequireEnd(task, AlwaysConsistent, stamp, RETURNED output), BuildEnd *)
+Theorem C17_session_require_end_value : forall RC OC P always fuel w t o w',
+  session_require RC OC P always fuel w t = Done o w' ->
+  exists rest, trace w' = EBuildEnd :: ERequireEnd t always (oc_stamp (OC always) o) o :: rest.
+Proof. exact session_require_end_value. Qed.
+Check C17_session_require_end_value : forall RC OC P always fuel w t o w',
+  session_require RC OC P always fuel w t = Done o w' ->
+  exists rest, trace w' = EBuildEnd :: ERequireEnd t always (oc_stamp (OC always) o) o :: rest.
+Print Assumptions C17_session_require_end_value.
 
 (* non-vacuity: a stream whose latest event for task 1 is the end with 8, for task 2 the start *)
 Example C17_last_exec_witness :
